@@ -72,6 +72,20 @@ Theorem C13_attention_ignores_masked : forall dv q ks ks' bias bias' mask vs vs'
   Forall2 Qeq (attend dv q ks bias mask vs) (attend dv q ks' bias' mask vs').
 Proof. exact attend_ignores_masked. Qed.
 Print Assumptions C13_attention_ignores_masked.
+(* masking the keys after position n is the same as not having them: in particular row t of whole-sequence attention under
+   the causal mask is attention over the first t+1 keys and values -- exactly what the decode cache holds at step t, so with
+   C13_decode_equals_causal (parametric in the attention function) stepwise decoding gives the causal rows of this attention *)
+Theorem C13_masked_suffix_is_absent : forall dv q ks1 ks2 b1 b2 vs1 vs2,
+  length b1 = length ks1 -> length vs1 = length ks1 -> length b2 = length ks2 -> length vs2 = length ks2 ->
+  Forall2 Qeq (attend dv q (ks1 ++ ks2) (b1 ++ b2) (repeat true (length ks1) ++ repeat false (length ks2)) (vs1 ++ vs2))
+              (attend dv q ks1 b1 (repeat true (length ks1)) vs1).
+Proof. exact masked_suffix_is_absent. Qed.
+Print Assumptions C13_masked_suffix_is_absent.
+Theorem C13_causal_row_is_prefix_attention : forall dv q kvs t, t < length kvs ->
+  Forall2 Qeq (attend dv q (map fst kvs) (repeat 0%Z (length kvs)) (causal_row t (length kvs)) (map snd kvs))
+              (att_kv dv q (firstn (S t) kvs)).
+Proof. exact causal_row_is_prefix_attention. Qed.
+Print Assumptions C13_causal_row_is_prefix_attention.
 Example C13_attention_example :
   attend 1 [1]%Z [[0]; [1]; [5]]%Z [0; 0; 0]%Z [true; true; false] [[6]; [3]; [100]]%Z = [108 # 27]%Q /\
   weights [0; 1; 5]%Z [true; true; false] = [1 # 3; 2 # 3; 0 # 3]%Q.
